@@ -14,8 +14,8 @@ from vf.taps.montap import montap
 
 LEVEL = "fault_enumeration"
 RULE = (
-    "fault enumeration: valid generated programs (a third of them with runs of statements moved into (nested) .include files) x 31 classes of definite error (invalid character, unterminated string, unknown keyword, "
-    "missing brace, missing operand, undefined symbol in a sized operand / in data, undefined macro, too few macro arguments, unsupported "
+    "fault enumeration: valid generated programs (a third of them with runs of statements moved into (nested) .include files) x 40 classes of definite error (invalid characters incl. NUL / DEL / non-ASCII, unterminated string, unknown keyword, "
+    "missing brace, missing operand, undefined symbol in a sized operand / in data, undefined macro, too few macro arguments, undefined symbol in a macro argument the body never reads, in an unused `=` symbol, in `*=`, unsupported "
     "addressing mode, unsupported width, out-of-range branch, unmapped address, missing .include/.incbin/.table/.include_ips file) inserted "
     "at every statement position that is always expanded (thorough) or 6 positions (quick) x 5 entry points (string API, Program.assemble, "
     "Program.assemble_as_patch, CLI -f ips and -f sfc in-process; CLI subprocess for a sample); each faulty run must fail visibly (error string / exception / "
@@ -57,6 +57,15 @@ FAULTS = {
     "branch_from_ram": ("semantic", "tgt_zz9:\n@=0x7e2000\nbra tgt_zz9"),
     "include_ips_without_header": ("semantic", ".include_ips 'bad_zz9.ips', 0"),
     "run_off_last_mapped_bank": ("semantic", "*=LASTBANK\n.dw 1, 2, 3, 4, 5, 6"),
+    "undefined_macro_argument_unused": ("semantic", ".macro sink_zz9(pa, pb) {\n.db pa\n}\nsink_zz9(1, undefined_zz9)"),
+    "undefined_macro_argument_under_false_if": ("semantic", ".macro sink_zz9(pa, pb) {\n.db pa\n.if 0 {\n.dw pb\n}\n}\nsink_zz9(1, undefined_zz9 + 2)"),
+    "unused_symbol_over_undefined": ("semantic", "uq9 = undefined_zz9 + 1"),
+    "position_over_undefined": ("semantic", "*=undefined_zz9"),
+    "nul_character": ("syntax", "\x00"),
+    "nul_character_between_statements": ("syntax", ".db 1\n\x00\n.db 2"),
+    "del_character": ("syntax", "\x7f"),
+    "non_ascii_character": ("syntax", "\u00e9"),
+    "double_quoted_string": ("syntax", ".ascii \"abc\""),
     "missing_include": ("syntax", ".include 'nofile_zz9.s'"),
     "missing_incbin": ("semantic", ".incbin 'nofile_zz9.bin'"),
     "missing_table": ("semantic", ".table 'nofile_zz9.tbl'"),
